@@ -36,6 +36,13 @@ def _gml(gid):
     return '\n'.join(nx.generate_graphml(g))
 
 
+def _gml_file(c, gid):
+    path = os.path.join(c.imp.import_host_dir, 'src.graphml')
+    with open(path, 'w') as f:
+        f.write(_gml(gid))
+    return path
+
+
 def comp(model):
     a = AttachedComponentsInfo()
     c = ComponentSliver()
@@ -93,6 +100,7 @@ def ops():
     o['importer.cast_graph'] = (['gid'], lambda c, v: c.imp.cast_graph(graph_id=v['gid']))
     o['importer._import_graph'] = (['gid', 'val'], lambda c, v: c.imp._import_graph(v['val'], v['gid']))
     o['importer.import_graph_from_string'] = (['gid'], lambda c, v: c.imp.import_graph_from_string(graph_string=_gml('x'), graph_id=v['gid']))
+    o['importer.import_graph_from_file_direct'] = (['gid'], lambda c, v: c.imp.import_graph_from_file_direct(graph_file=_gml_file(c, v['gid'])))
     o['importer.import_graph_from_string_direct'] = (['gid'], lambda c, v: c.imp.import_graph_from_string_direct(graph_string=_gml(v['gid'])))
     o['asm.check_node_name'] = (['gid', 'node', 'val'], lambda c, v: c.asm(v['gid']).check_node_name(node_id=v['node'], label='NetworkNode', name=v['val']))
     o['asm.find_node_by_name'] = (['gid', 'val'], lambda c, v: c.asm(v['gid']).find_node_by_name(node_name=v['val'], label='NetworkNode'))
@@ -158,7 +166,7 @@ def eval_op(case):
     for mode in ('rich', 'none', 'empty'):
         calls0, err0 = run_op(op, base_vals, mode)
         ncalls = len(calls0)
-        deviations = [None] + ([{i: m} for i in range(ncalls) for m in ('none', 'empty')] if mode == 'rich' else [])
+        deviations = [None] + ([{i: m} for i in range(ncalls) for m in ('none', 'empty', 'raise')] if mode == 'rich' else [])
         for dev in deviations:
             calls_b, _ = run_op(op, base_vals, mode, dev)
             for i, (st, pr, site) in enumerate(calls_b):
@@ -220,7 +228,7 @@ def run(report):
     g = explore_cases(report, 'operations', eval_op, cases, chunk=1,
                       rule='one case = one backend operation: baseline + every value position x 12 adversarial values (one position at a '
                            'time, then all positions jointly) x environment answers (record / none / empty for all calls; each single '
-                           'deviation of one call under the default answer); every recorded (statement, parameters) pair is judged; '
+                           'deviation - none, empty, or an injected driver fault - of one call under the default answer); every recorded (statement, parameters) pair is judged; '
                            'distinct = operations with at least one recorded statement',
                       space=f'{len(OPS)} operations of Neo4jPropertyGraph, Neo4jGraphImporter, Neo4jASM, Neo4jADMGraph, Neo4jCBMGraph')
     report.assumptions += ['well-formedness is judged lexically (no Cypher parser / server in the sandbox): balanced brackets and quotes, no '
